@@ -177,10 +177,12 @@ impl BootstrapAddr {
     }
 
     fn failure_rate(&self) -> f64 {
-        if self.success_count + self.failure_count == 0 {
+        // counts come from the cache file and may both be close to u32::MAX: add in u64
+        let total = self.success_count as u64 + self.failure_count as u64;
+        if total == 0 {
             0.0
         } else {
-            self.failure_count as f64 / (self.success_count + self.failure_count) as f64
+            self.failure_count as f64 / total as f64
         }
     }
 }
